@@ -76,7 +76,15 @@ func init() {
 			return in.C.Ite(in.boolTerm(a[0]), in.term(a[1]), in.term(a[2]))
 		},
 		"verifReach": func(in *Interp, fn *ssa.Function, a []Value) Value {
-			in.X.Reached[in.concStr(a[0])] = true
+			tag := in.concStr(a[0])
+			if in.X.SoftBranch && !in.X.Reached[tag] && in.X.pos >= len(in.X.prefix) {
+				// paths may have been kept on undecided feasibility: a witness counts only if the solver
+				// shows this very path feasible
+				if in.X.pathFeasible() != smt.Sat {
+					return nil
+				}
+			}
+			in.X.Reached[tag] = true
 			return nil
 		},
 		"verifUF":       iUF,
@@ -383,6 +391,18 @@ func iUF(in *Interp, fn *ssa.Function, a []Value) Value {
 		targs = append(targs, in.C.Concat(bs...))
 	}
 	uname := fmt.Sprintf("%s%s_o%d", name, sig, outLen)
+	// a name ending in ".comm" declares a commutative binary function: the operands are put in a
+	// canonical order, so f(a,b) and f(b,a) are the same term
+	if strings.HasSuffix(name, ".comm") && len(targs) == 2 && targs[0].W == targs[1].W {
+		if targs[0].ID > targs[1].ID {
+			targs[0], targs[1] = targs[1], targs[0]
+		}
+		// f(a,b) := h(min(a,b), max(a,b)): commutative for the solver as well, not only syntactically
+		if targs[0] != targs[1] {
+			le := in.C.Ule(targs[0], targs[1])
+			targs[0], targs[1] = in.C.Ite(le, targs[0], targs[1]), in.C.Ite(le, targs[1], targs[0])
+		}
+	}
 	if outLen == 0 {
 		return in.newByteSlice(nil, 0, uname)
 	}
